@@ -6,8 +6,9 @@
 //
 //	path=ApplyTransaction: the full product  fork{pre-Galaxias,Galaxias} x sender{rich,poor} x nonce{cur-1,cur,cur+1}
 //	   x value{0,1,balance-fee,balance-fee+1,balance+1} x gasLimit{intrinsic-1,intrinsic,intrinsic+30000,ample,pool,pool+1}
-//	   x price{0,1,10^9} x target{EOA, fresh empty account, call(P), create(P as init code)}
-//	   for every program P of <= 2 (quick) / <= 3 (thorough) actions over an 18-token alphabet.
+//	   x price{0,1,10^9} x target{EOA, fresh empty account, sender itself (each also with proposer = sender), call(P),
+//	   create(P as init code)} for every program P of <= 2 (quick) / <= 3 (thorough) actions over an 18-token alphabet
+//	   (rejected points are not repeated for the longest programs, see the rule string).
 //	path=commitBlock: the empty block, every single and every ordered pair of a 22-entry transaction menu (both forks),
 //	   each under the header gas limits {big, g2, g1+g2-1, used1+g2, used1+g2-1} that force pool exhaustion on the second.
 //
@@ -78,7 +79,7 @@ func sigsOf(rc replayCase) ([]finding, string) {
 			return nil, "degenerate point (skipped by the enumeration)"
 		}
 		var prog []int
-		if spec.Target >= tCall {
+		if spec.Target == tCall || spec.Target == tCreate {
 			prog = spec.Prog
 		}
 		res := evalTx(buildPre(prog), spec, tx, c)
@@ -151,8 +152,11 @@ func (a *agg) record(res *txResult) {
 			a.n["ops_executed:"+opsString(1<<i)]++
 		}
 	}
-	a.distinct[fmt.Sprintf("A|%s|%s|%s|%s|%v|%s|%s|%s|burn=%v|refund=%v|cap=%v", forkNames[s.Fork], senderNames[s.Sender], valueNames[s.Value], gasNames[s.Gas],
-		prices[s.Price], targetNames[s.Target], opsString(res.ops), res.status, res.burn.Sign() > 0, res.refund > 0, res.capBinds)] = struct{}{}
+	a.distinct[fmt.Sprintf("A|%s|%s|%s|%s|%v|%s|cb=%v|%s|%s|burn=%v|refund=%v|cap=%v", forkNames[s.Fork], senderNames[s.Sender], valueNames[s.Value], gasNames[s.Gas],
+		prices[s.Price], targetNames[s.Target], s.CbSend, opsString(res.ops), res.status, res.burn.Sign() > 0, res.refund > 0, res.capBinds)] = struct{}{}
+	if s.CbSend {
+		a.n["applytx_applied_with_proposer_is_sender"]++
+	}
 }
 
 // ---------------------------------------------------------------------------------------------
@@ -209,13 +213,16 @@ func main() {
 		r.SetDeadline(52 * time.Second)
 	}
 	r.Set("rule", "path=ApplyTransaction: every point of fork{pre-Galaxias,Galaxias} x sender{rich,poor} x nonce{cur-1,cur,cur+1} x value{0,1,balance-fee,balance-fee+1,balance+1} x "+
-		"gasLimit{intrinsic-1,intrinsic,intrinsic+30000,10^6,pool,pool+1} x price{0,1,10^9} x target{EOA, fresh empty, call(P), create(P as init code)} for EVERY program P of <= "+
-		fmt.Sprint(maxLen)+" actions over the 18-token alphabet {XFER half of own balance, CREATE child with value, REVERT, SELFDESTRUCT self, SELFDESTRUCT other, INVALID (burn all gas), "+
-		"SSTORE set, SSTORE clear, STATICCALL-into-writer then write, CALL(each of the 9 one-action leaf contracts) with value}; points whose 'balance-fee' would be negative are skipped (counted). "+
-		"path=commitBlock: empty block, all singles and all ordered pairs of a 22-entry transaction menu per fork under header gas limits {10^7, g2, g1+g2-1, used1+g2, used1+g2-1}. "+
-		"Each evaluation runs the real ApplyTransaction / commitBlock on a copy of the real chain's head state and sums ALL account leaves of the state trie. "+
-		"distinct_nontrivial = distinct (transaction class, set of action opcodes that really executed, outcome class incl. rejection class / value destroyed / refund granted / refund cap binding); "+
-		"for blocks distinct (fork, accept/reject pattern with classes, pool-exhaustion forced, value destroyed).")
+		"gasLimit{intrinsic-1,intrinsic,intrinsic+30000,10^6,pool,pool+1} x price{0,1,10^9} x target{EOA, fresh empty account, the sender itself (each also with proposer = sender), call(P), "+
+		"create(P as init code)} for EVERY program P of <= "+fmt.Sprint(maxLen)+" actions over the 18-token alphabet {XFER half of own balance, CREATE child with value, REVERT, SELFDESTRUCT to self, "+
+		"SELFDESTRUCT to another account, INVALID (burn all gas), SSTORE set, SSTORE clear (refund), STATICCALL-into-writer then write, CALL(each of the 9 one-action leaf contracts) with value 3}; P and the "+
+		"leaves hold value and a set storage slot in the pre-state. Stated exceptions (all counted): points whose 'balance-fee' would be negative are skipped; points that the checker's reference "+
+		"pre-check classifies as rejected are enumerated for creations with one-action init codes and for calls into programs of <= 2 actions only (a rejection never reads the target). "+
+		"path=commitBlock: the empty block, all singles and all ordered pairs of a 22-entry transaction menu (valid transfer/call/create/burn, next nonce, and one transaction per rejection class, for a rich and "+
+		"a poor sender) per fork, each under the header gas limits {10^7, g2, g1+g2-1, used1+g2, used1+g2-1} (singles {10^7, g1, g1-1}). "+
+		"Each evaluation runs the real ApplyTransaction / commitBlock on a copy of the real chain's head state (genesis with staking contract and validator) and sums ALL account leaves of the state trie. "+
+		"distinct_nontrivial = distinct (transaction class, set of action opcodes that really executed in that evaluation, outcome class incl. rejection class / left-over gas purchase / value destroyed / "+
+		"refund granted / refund cap binding); for blocks distinct (fork, accept/reject pattern with classes, tight header limit, value destroyed). Every evaluation reaches TransitionDb of the real code.")
 	r.Assume(
 		"A1 fee recipient: in this code base the fee goes to header.ProposerAddress (KVM Coinbase), credited in TransitionDb as gasUsed*price; the oracle checks exactly that account.",
 		"A2 weakest reading of 'rejected leaves everything unchanged' at the ApplyTransaction level: rejections decided before buyGas (nonce, funds for gas, block gas) must leave state AND pool "+
@@ -321,7 +328,7 @@ func main() {
 			s txSpec
 		}
 		var jobs []job
-		for _, tg := range []int{tEOA, tEmpty, tCall} {
+		for _, tg := range []int{tEOA, tEmpty, tSelf, tCall} {
 			for i := int64(0); i < nPoints; i++ {
 				d := make([]int, len(radices))
 				par.MixedRadix(i, radices, d)
@@ -349,14 +356,18 @@ func main() {
 		pre := buildPre(prog)
 		targets := []int{tCall, tCreate}
 		if prog == nil {
-			targets = []int{tEOA, tEmpty}
+			targets = []int{tEOA, tEmpty, tSelf, -tEOA - 1, -tEmpty - 1, -tSelf - 1} // negative: the same with proposer = sender
 		}
 		d := make([]int, len(radices))
 		for _, tg := range targets {
+			cbSend := tg < 0
+			if cbSend {
+				tg = -tg - 1
+			}
 			for i := int64(0); i < nPoints; i++ {
 				par.MixedRadix(i, radices, d)
 				k := txKey{d[5], d[4], d[3], d[2], d[1], d[0], tg}
-				spec := txSpec{Path: "ApplyTransaction", Fork: k.fork, Sender: k.sender, Nonce: k.nonce, Value: k.value, Gas: k.gas, Price: k.price, Target: tg}
+				spec := txSpec{Path: "ApplyTransaction", Fork: k.fork, Sender: k.sender, Nonce: k.nonce, Value: k.value, Gas: k.gas, Price: k.price, Target: tg, CbSend: cbSend}
 				var tx *types.Transaction
 				var c concrete
 				if tg == tCreate {
@@ -367,10 +378,13 @@ func main() {
 						continue
 					}
 					if len(prog) >= 2 && !c.expValid {
-						a.n["creation_points_left_to_one_action_init_codes"]++
+						a.n["rejected_points_left_to_shorter_programs"]++
 						continue // see rule: creations that fail a pre-check are enumerated for one-action init codes only
 					}
 					tx, c, _ = spec.build()
+				} else if c0, ok := sharedC[k]; ok && len(prog) >= 3 && !c0.expValid {
+					a.n["rejected_points_left_to_shorter_programs"]++
+					continue // see rule: calls that fail a pre-check are enumerated for programs of <= 2 actions only
 				} else {
 					if tg == tCall {
 						spec.Prog = prog
@@ -407,7 +421,7 @@ func main() {
 		r.Require(r.Get("applytx_rejected:"+cls) > 0, "no transaction was rejected with class "+cls+" on path=ApplyTransaction")
 		r.Require(r.Get("block_rejected:"+cls) > 0, "no transaction was rejected with class "+cls+" on path=commitBlock")
 	}
-	for _, k := range []string{"eoa/ok", "fresh-empty/ok", "call-contract/ok", "call-contract/failed", "create/ok", "create/failed"} {
+	for _, k := range []string{"eoa/ok", "fresh-empty/ok", "self/ok", "call-contract/ok", "call-contract/failed", "create/ok", "create/failed"} {
 		r.Require(r.Get("applytx_applied:"+k) > 0, "no applied transaction of kind "+k)
 	}
 	for i := uint(0); i < 10; i++ {
